@@ -20,6 +20,7 @@ Definition item : ty :=
   TNamed "Item" (TStruct [("Name", t_string); ("Ref", TPtr plain); ("Tags", TSlice t_int32); ("Attr", TMap t_string t_int32);
                           ("Note", TPtr t_string); ("Age", t_int32)]).
 Definition mid : ty := TNamed "Mid" (TStruct [("Inner", window); ("PW", TPtr window); ("N", t_int32)]).
+Definition pflat : ty := TNamed "PF" (TStruct [("A", TPtr t_int32); ("P", TPtr plain); ("N", t_int32)]).   (* pointers only: no string, bytes or collection *)
 Definition kind : ty := TNamed "Kind" t_int32.            (* a named scalar *)
 Definition label : ty := TNamed "Label" t_string.         (* a named string scalar *)
 
@@ -145,7 +146,11 @@ Definition multi : list ty :=
    (* collections of structs that themselves hold pointers and collections (depth 3) *)
    TStruct [("Items", TSlice item); ("PI", TSlice (TPtr item)); ("One", item)];
    (* a collection two struct levels below the root, the middle struct having none of its own *)
-   TStruct [("Mid", mid); ("PM", TPtr mid)]].
+   TStruct [("Mid", mid); ("PM", TPtr mid)];
+   (* slices of structs that hold a collection but no string or bytes (the has-bytes / has-collection flags differ) *)
+   TStruct [("Ws", TSlice window); ("PWs", TPtr (TSlice window)); ("NW", TNamed "Wins" (TSlice window)); ("WPs", TSlice (TPtr window))];
+   (* slices of structs whose only indirections are pointers *)
+   TStruct [("Fs", TSlice pflat); ("FPs", TSlice (TPtr pflat)); ("NF", TNamed "PFs" (TSlice pflat)); ("One", pflat)]].
 
 Definition rep_shapes : list ty :=
   dedup_ty (shapes1 rep_skinds ++ shapes2 [SString; SInt KInt32] [SInt KInt32; SString]).
